@@ -474,9 +474,10 @@ func c23Encode(ser *ProtoSerializer, pool *FramePool, m proto.Message, md *c23MD
 func TestVerif_C23(t *testing.T) {
 	r := verifrt.Start(t, "C23")
 	defer r.Finish()
-	r.Rule("round-trip case = (message type of the internal wire schema filled by a seeded protoreflect filler, metadata in {absent, nil, 0..300 headers, 65535 headers, 65535-byte keys/values} x deadline in {none, past, near, future, far}, encoder in {plain, pooled} x {legacy, metadata format}) decoded by every applicable decoder (UnmarshalBinary, UnmarshalBinaryWithMetadata, client auto-detection) and compared (proto.Equal, type name, header map, deadline drift within measured elapsed + 1ms); non-trivial = message has at least one populated field or at least one header; distinct by type + message bytes + headers + deadline kind + encoder. stream case = k concatenated frames read back by readProtoFrame over a fragmenting reader, or echoed by a real ProtoServer to the real Client (SendProto / SendBatchProto / SendProtoManyNoReply). hostile case = one byte string (prefix truncation, length-field perturbation, byte flips, garbage) given to every decoder and to the frame reader under recover, once in an exact-capacity buffer and once in a buffer with a canary tail; non-trivial = it is not itself a valid unmodified frame")
+	r.Rule("round-trip case = (message type of the internal wire schema filled by a seeded protoreflect filler, metadata in {absent, nil, 0..300 headers, 65535 headers, 65535-byte keys/values} x deadline in {none, past, near, future, far}, encoder in {plain, pooled} x {legacy, metadata format}) decoded by every applicable decoder (UnmarshalBinary, UnmarshalBinaryWithMetadata, client auto-detection) and compared (proto.Equal, type name, header map, deadline drift within measured elapsed + 1ms); non-trivial = message has at least one populated field or at least one header; distinct by type + message bytes + headers + deadline kind + encoder. stream case = k concatenated frames read back by readProtoFrame over a fragmenting reader, or echoed by a real ProtoServer to the real Client (SendProto / SendBatchProto / SendProtoManyNoReply). hostile case = one byte string (every prefix truncation of some valid frames and metadata sections, length-field / header-count perturbations, byte flips, garbage, frame followed by junk) given to every decoder and to the frame reader (limit 4 KiB) under recover, once in an exact-capacity buffer and once in a buffer with a canary tail beyond len; all hostile inputs count as non-trivial, distinct by bytes")
 	r.Assume("proto.Equal is the equality of protocol messages; the monotonic clock measures the time between encode and decode")
 
+	t0 := time.Now()
 	types := c23MessageTypes()
 	if len(types) < 50 {
 		t.Fatalf("c23: only %d internal wire message types found", len(types))
@@ -581,9 +582,13 @@ func TestVerif_C23(t *testing.T) {
 		r.Inconclusive("only %d small frames collected for the stream/hostile parts", len(corpus))
 		return
 	}
+	t1 := time.Now()
 	c23Streams(r, rng, cl, pool, corpus)
+	t2 := time.Now()
 	c23EndToEnd(t, r, rng, corpus)
+	t3 := time.Now()
 	c23Hostile(r, rng, cl, corpus, false)
+	r.Note("phase seconds: roundtrip %.1f streams %.1f end-to-end %.1f hostile %.1f", t1.Sub(t0).Seconds(), t2.Sub(t1).Seconds(), t3.Sub(t2).Seconds(), time.Since(t3).Seconds())
 }
 
 // c23FragReader hands out the stream in random small pieces.
@@ -968,48 +973,220 @@ func c23MustFail(which int, data []byte) bool {
 	return false
 }
 
+// c23MetaSection returns the metadata section of a valid metadata-format
+// frame (nil when there is none).
+func c23MetaSection(f c23Frame) []byte {
+	if !f.meta || len(f.bytes) < 12 {
+		return nil
+	}
+	nameLen := int(binary.BigEndian.Uint32(f.bytes[4:8]))
+	metaLen := int(binary.BigEndian.Uint32(f.bytes[8:12]))
+	if metaLen == 0 || 12+nameLen+metaLen > len(f.bytes) {
+		return nil
+	}
+	return f.bytes[12+nameLen : 12+nameLen+metaLen]
+}
+
+// c23MutateSection derives a hostile metadata section from a valid one.
+func c23MutateSection(rng *rand.Rand, sec []byte) ([]byte, string) {
+	b := bytes.Clone(sec)
+	u16 := []int{0, 1, 2, 255, 256, 4096, 65535, rng.Intn(65536)}
+	switch rng.Intn(6) {
+	case 0:
+		return b[:rng.Intn(len(b))], "sec-truncate"
+	case 1:
+		binary.BigEndian.PutUint16(b, uint16(u16[rng.Intn(len(u16))]))
+		return b, "sec-count"
+	case 2:
+		if len(b) >= 4 {
+			binary.BigEndian.PutUint16(b[2:], uint16(u16[rng.Intn(len(u16))]))
+		}
+		return b, "sec-keylen"
+	case 3:
+		for k := 1 + rng.Intn(3); k > 0; k-- {
+			b[rng.Intn(len(b))] ^= byte(1 << uint(rng.Intn(8)))
+		}
+		return b, "sec-bitflip"
+	case 4:
+		g := make([]byte, rng.Intn(40))
+		rng.Read(g)
+		if len(g) >= 2 && rng.Intn(2) == 0 {
+			binary.BigEndian.PutUint16(g, uint16(rng.Intn(6)))
+		}
+		return g, "sec-garbage"
+	default:
+		// count one too many / one too few
+		c := binary.BigEndian.Uint16(b)
+		if rng.Intn(2) == 0 {
+			c++
+		} else {
+			c--
+		}
+		binary.BigEndian.PutUint16(b, c)
+		return b, "sec-count-off-by-one"
+	}
+}
+
+type c23ReaderResult struct {
+	frame []byte
+	err   error
+	pan   string
+	left  int
+}
+
+func c23ReadFrame(in []byte, p *FramePool, limit uint32) (res c23ReaderResult) {
+	rd := bytes.NewReader(in)
+	defer func() {
+		if rec := recover(); rec != nil {
+			res.pan = fmt.Sprint(rec)
+		}
+		res.left = rd.Len()
+	}()
+	res.frame, res.err = readProtoFrame(rd, p, limit)
+	return
+}
+
+func c23ParseSection(sec []byte) (err error, pan string) {
+	defer func() {
+		if rec := recover(); rec != nil {
+			pan = fmt.Sprint(rec)
+		}
+	}()
+	err = (&Metadata{}).UnmarshalBinary(sec)
+	return
+}
+
 // c23Hostile feeds hostile inputs to every decoder and to the frame reader.
-// With alloc=true (plain build, single goroutine) it measures what each call
-// allocates instead of running the buffer-bounds differential.
+// With alloc=true (plain build, single goroutine) it additionally measures
+// what the calls allocate and skips the buffer-bounds differential.
 func c23Hostile(r *verifrt.Run, rng *rand.Rand, cl *Client, corpus []c23Frame, alloc bool) {
 	n := r.N(60000, 5000000)
+	if alloc {
+		n = r.N(20000, 1000000)
+	}
 	const limit = 4096 // configured frame limit of the robustness part
 	const allocBound = 1 << 20
 	pool := NewFramePool()
 	classes := map[string]int64{}
 	var rejected, accepted int64
 
-	// every prefix of a few valid frames (once per batch)
-	var inputs [][]byte
-	var inputClass []string
+	type hostileIn struct {
+		frame []byte // nil: section-only input
+		sec   []byte
+		class string
+	}
+	var inputs []hostileIn
+	// every prefix of a few valid frames and of a few metadata sections
 	for j := 0; j < 6; j++ {
 		f := corpus[rng.Intn(len(corpus))]
 		for cut := 0; cut < len(f.bytes); cut++ {
-			inputs = append(inputs, bytes.Clone(f.bytes[:cut]))
-			inputClass = append(inputClass, "truncate")
+			inputs = append(inputs, hostileIn{frame: bytes.Clone(f.bytes[:cut]), class: "truncate"})
+		}
+	}
+	nsec := 0
+	for j := 0; j < 200 && nsec < 3; j++ {
+		if sec := c23MetaSection(corpus[rng.Intn(len(corpus))]); len(sec) > 10 {
+			nsec++
+			for cut := 0; cut < len(sec); cut++ {
+				inputs = append(inputs, hostileIn{sec: bytes.Clone(sec[:cut]), class: "sec-truncate"})
+			}
 		}
 	}
 	for len(inputs) < n {
 		f := corpus[rng.Intn(len(corpus))]
+		if sec := c23MetaSection(f); sec != nil && rng.Intn(6) == 0 {
+			ms, class := c23MutateSection(rng, sec)
+			inputs = append(inputs, hostileIn{sec: ms, class: class})
+			continue
+		}
 		in, class := c23Mutate(rng, f, alloc)
-		inputs = append(inputs, in)
-		inputClass = append(inputClass, class)
+		inputs = append(inputs, hostileIn{frame: in, class: class})
 	}
 
-	for i, in := range inputs {
-		class := inputClass[i]
+	for inIdx, hin := range inputs {
+		class := hin.class
 		classes[class]++
-		nontrivial := true
+		if hin.frame == nil {
+			sec := bytes.Clone(hin.sec) // cap == len
+			if alloc {
+				d := c23AllocDelta(func() { c23ParseSection(sec) })
+				r.Max("max_alloc_metadata_bytes", int64(d))
+				if d > allocBound {
+					kind := "other"
+					if len(sec) >= 2 && binary.BigEndian.Uint16(sec) > 4096 {
+						kind = "metadata-count-presize"
+					}
+					r.Violation("frame-hostile:alloc-beyond-limit:Metadata.UnmarshalBinary:"+kind, map[string]any{"input": fmt.Sprintf("%x", sec), "class": class, "input_len": len(sec), "allocated_bytes": d, "bound": allocBound})
+				}
+			}
+			err, pan := c23ParseSection(sec)
+			if pan != "" {
+				r.Violation("frame-hostile:panic:Metadata.UnmarshalBinary", map[string]any{"input": fmt.Sprintf("%x", sec), "class": class, "panic": pan})
+			}
+			if err == nil && pan == "" {
+				accepted++
+				if class == "sec-truncate" {
+					r.Violation("frame-hostile:accepted-malformed:Metadata.UnmarshalBinary", map[string]any{"input": fmt.Sprintf("%x", sec), "class": class})
+				}
+			} else {
+				rejected++
+			}
+			r.Case("hs/"+string(sec), true)
+			continue
+		}
+
+		in := hin.frame
+		if alloc {
+			// one measurement around everything that is done with this input;
+			// the calls are measured one by one only when the group is above
+			// the bound
+			exact := bytes.Clone(in)
+			group := func() {
+				for w := c23DecPlain; w <= c23DecAuto; w++ {
+					c23Decode(w, cl, exact)
+				}
+				for _, p := range []*FramePool{nil, pool} {
+					if res := c23ReadFrame(in, p, limit); res.err == nil && p != nil && res.pan == "" {
+						p.Put(res.frame)
+					}
+				}
+			}
+			d := c23AllocDelta(group)
+			r.Max("max_alloc_per_input_bytes", int64(d))
+			if d > allocBound && len(in) <= limit {
+				attributed := false
+				for w := c23DecPlain; w <= c23DecAuto; w++ {
+					if dw := c23AllocDelta(func() { c23Decode(w, cl, exact) }); dw > allocBound {
+						kind := "other"
+						if c23HugeMetaCount(in) {
+							kind = "metadata-count-presize"
+						}
+						attributed = true
+						r.Violation("frame-hostile:alloc-beyond-limit:"+c23DecNames[w]+":"+kind, map[string]any{"input": fmt.Sprintf("%x", in), "class": class, "input_len": len(in), "allocated_bytes": dw, "bound": allocBound})
+					}
+				}
+				for _, p := range []*FramePool{nil, pool} {
+					if dr := c23AllocDelta(func() { c23ReadFrame(in, p, limit) }); dr > allocBound {
+						attributed = true
+						total := uint32(0)
+						if len(in) >= 4 {
+							total = binary.BigEndian.Uint32(in[:4])
+						}
+						r.Violation("frame-hostile:alloc-beyond-limit:readProtoFrame", map[string]any{"input": fmt.Sprintf("%x", in), "class": class, "pooled": p != nil, "allocated_bytes": dr, "announced_len": total, "limit": limit})
+					}
+				}
+				if !attributed {
+					// no single call is above the bound: not a violation of the
+					// per-call statement (shared caches are flushed now and then)
+					r.Count("alloc_group_above_bound_but_no_single_call", 1)
+				}
+			}
+		}
+
 		for w := c23DecPlain; w <= c23DecAuto; w++ {
 			exact := make([]byte, len(in)) // cap == len: any read past the end panics
 			copy(exact, in)
-			var a c23Outcome
-			var delta uint64
-			if alloc {
-				delta = c23AllocDelta(func() { a = c23Run(w, cl, exact) })
-			} else {
-				a = c23Run(w, cl, exact)
-			}
+			a := c23Run(w, cl, exact)
 			if a.pan != "" {
 				r.Violation("frame-hostile:panic:"+c23DecNames[w], map[string]any{"input": fmt.Sprintf("%x", in), "class": class, "panic": a.pan})
 				continue
@@ -1026,19 +1203,15 @@ func c23Hostile(r *verifrt.Run, rng *rand.Rand, cl *Client, corpus []c23Frame, a
 				r.Violation("frame-hostile:nil-message-without-error:"+c23DecNames[w], map[string]any{"input": fmt.Sprintf("%x", in), "class": class})
 			}
 			if alloc {
-				r.Max("max_alloc_decode_bytes", int64(delta))
-				if delta > allocBound && len(in) <= limit {
-					kind := "other"
-					if c23HugeMetaCount(in) {
-						kind = "metadata-count-presize"
-					}
-					r.Violation("frame-hostile:alloc-beyond-limit:"+c23DecNames[w]+":"+kind, map[string]any{"input": fmt.Sprintf("%x", in), "class": class, "input_len": len(in), "allocated_bytes": delta, "bound": allocBound})
-				}
 				continue
 			}
 			// same bytes in a larger buffer whose tail (beyond len, within cap)
 			// holds a canary: the outcome must not depend on it
-			for _, canary := range []byte{0x00, 0xFF} {
+			canaries := []byte{0x00}
+			if inIdx%2 == 1 {
+				canaries[0] = 0xFF
+			}
+			for _, canary := range canaries {
 				big := make([]byte, len(in), len(in)+256)
 				copy(big, in)
 				tail := big[len(in):cap(big)]
@@ -1057,49 +1230,13 @@ func c23Hostile(r *verifrt.Run, rng *rand.Rand, cl *Client, corpus []c23Frame, a
 			}
 		}
 
-		// metadata section on its own
-		if len(in) > 12 {
-			sec := bytes.Clone(in[12:])
-			var perr error
-			pan := ""
-			delta := c23MaybeAlloc(alloc, func() {
-				defer func() {
-					if rec := recover(); rec != nil {
-						pan = fmt.Sprint(rec)
-					}
-				}()
-				perr = (&Metadata{}).UnmarshalBinary(sec)
-			})
-			_ = perr
-			if pan != "" {
-				r.Violation("frame-hostile:panic:Metadata.UnmarshalBinary", map[string]any{"input": fmt.Sprintf("%x", sec), "panic": pan})
-			}
-			if alloc && delta > allocBound {
-				kind := "other"
-				if len(sec) >= 2 && binary.BigEndian.Uint16(sec) > 8192 {
-					kind = "metadata-count-presize"
-				}
-				r.Violation("frame-hostile:alloc-beyond-limit:Metadata.UnmarshalBinary:"+kind, map[string]any{"input": fmt.Sprintf("%x", sec), "input_len": len(sec), "allocated_bytes": delta, "bound": allocBound})
-			}
-		}
-
 		// frame reader with a 4 KiB limit, pooled and unpooled
 		for _, p := range []*FramePool{nil, pool} {
-			rd := bytes.NewReader(in)
-			var fr []byte
-			var err error
-			pan := ""
-			delta := c23MaybeAlloc(alloc, func() {
-				defer func() {
-					if rec := recover(); rec != nil {
-						pan = fmt.Sprint(rec)
-					}
-				}()
-				fr, err = readProtoFrame(rd, p, limit)
-			})
+			res := c23ReadFrame(in, p, limit)
+			fr, err := res.frame, res.err
 			det := map[string]any{"input": fmt.Sprintf("%x", in), "class": class, "pooled": p != nil}
-			if pan != "" {
-				det["panic"] = pan
+			if res.pan != "" {
+				det["panic"] = res.pan
 				r.Violation("frame-hostile:panic:readProtoFrame", det)
 				continue
 			}
@@ -1107,20 +1244,13 @@ func c23Hostile(r *verifrt.Run, rng *rand.Rand, cl *Client, corpus []c23Frame, a
 			if len(in) >= 4 {
 				total = binary.BigEndian.Uint32(in[:4])
 			}
-			mustFail := len(in) < 4 || total < 8 || total > limit || int(total) > len(in)
-			if alloc {
-				r.Max("max_alloc_reader_bytes", int64(delta))
-				if delta > allocBound {
-					det["allocated_bytes"], det["announced_len"], det["limit"] = delta, total, limit
-					r.Violation("frame-hostile:alloc-beyond-limit:readProtoFrame", det)
-				}
-			}
+			mustFail := len(in) < 4 || total < 8 || total > limit || int64(total) > int64(len(in))
 			switch {
 			case err == nil && mustFail:
 				det["announced_len"] = total
 				r.Violation("frame-hostile:reader-accepted-malformed", det)
-			case err == nil && (len(fr) != int(total) || !bytes.Equal(fr, in[:total]) || rd.Len() != len(in)-int(total)):
-				det["got_len"], det["announced_len"], det["left_in_reader"] = len(fr), total, rd.Len()
+			case err == nil && (len(fr) != int(total) || !bytes.Equal(fr, in[:total]) || res.left != len(in)-int(total)):
+				det["got_len"], det["announced_len"], det["left_in_reader"] = len(fr), total, res.left
 				r.Violation("frame-hostile:reader-frame-differs", det)
 			case err != nil && !mustFail:
 				det["error"] = err.Error()
@@ -1133,16 +1263,13 @@ func c23Hostile(r *verifrt.Run, rng *rand.Rand, cl *Client, corpus []c23Frame, a
 				p.Put(fr)
 			}
 		}
-		if class == "extended" || class == "payload-garbage" {
-			nontrivial = true
-		}
-		r.Case("h/"+string(in), nontrivial)
+		r.Case("h/"+string(in), true)
 	}
 	for k, v := range classes {
 		r.Count("hostile_"+k, v)
 	}
-	r.Count("hostile_decodes_rejected", rejected)
-	r.Count("hostile_decodes_accepted", accepted)
+	r.Count("hostile_calls_rejected", rejected)
+	r.Count("hostile_calls_accepted", accepted)
 }
 
 func c23HugeMetaCount(in []byte) bool {
@@ -1154,7 +1281,7 @@ func c23HugeMetaCount(in []byte) bool {
 	if nameLen < 0 || off+2 > len(in) {
 		return false
 	}
-	return binary.BigEndian.Uint16(in[off:]) > 8192
+	return binary.BigEndian.Uint16(in[off:]) > 4096
 }
 
 // c23AllocDelta returns what fn allocated (bytes), measured on this goroutine
@@ -1176,14 +1303,6 @@ func c23AllocDelta(fn func()) uint64 {
 		}
 	}
 	return best
-}
-
-func c23MaybeAlloc(alloc bool, fn func()) uint64 {
-	if alloc {
-		return c23AllocDelta(fn)
-	}
-	fn()
-	return 0
 }
 
 // TestVerif_C23Alloc is the allocation-bound part: plain build, one
